@@ -25,6 +25,7 @@ func init() {
 }
 
 func runC19(c *Ctx, r *Run) {
+	checkSinkAccumulates(c, r, "SINK-1")
 	checkFillWidths(c, r, "WIDTH-1")
 	checkResultsUsed(c, r, "USE-1", 100)
 	r.Rule("ENC-0", "item framing in hash.WriteAny: variable-width writes are length-prefixed by a fixed-width encoding of len() of the same value on every path; the type switch rejects unknown types")
@@ -1828,4 +1829,114 @@ func checkFillWidths(c *Ctx, r *Run, rule string) {
 		}
 	}
 	r.Require(rule, 2)
+}
+
+// checkSinkAccumulates: SINK-1. Inside pkg/hash a value is serialised by handing a sink to its WriteTo and hashing what
+// the sink collected. Writers call Write several times (a list writes each element): the sink must keep ALL of it.
+// Accepted sinks: *bytes.Buffer, *strings.Builder, a hash state, or a type of the module whose Write appends the
+// argument to a field of the receiver (append(s.f, p...) stored back into s.f) or forwards to such a sink.
+func checkSinkAccumulates(c *Ctx, r *Run, rule string) {
+	r.Rule(rule, "the sink a value is serialised into before it is framed and hashed keeps every Write (it appends)")
+	hp := c.PkgRel("pkg/hash")
+	if hp == nil {
+		r.Unresolved(rule, "pkg/hash")
+		return
+	}
+	var accumulating func(t types.Type, depth int) (bool, string)
+	accumulating = func(t types.Type, depth int) (bool, string) {
+		ts := t.String()
+		switch ts {
+		case "*bytes.Buffer", "*strings.Builder", "hash.Hash", "*github.com/zeebo/blake3.Hasher":
+			return true, ts
+		}
+		n := namedOf(t)
+		if n == nil || n.Obj().Pkg() == nil || !c.InModule(n.Obj().Pkg()) || depth > 2 {
+			return false, "sink of type " + ts + " is not known to accumulate"
+		}
+		var wfn *ssa.Function
+		for _, tt := range []types.Type{t, types.NewPointer(n)} {
+			ms := c.Prog.MethodSets.MethodSet(tt)
+			if sel := ms.Lookup(n.Obj().Pkg(), "Write"); sel != nil {
+				wfn = c.Prog.MethodValue(sel)
+			}
+			if wfn == nil {
+				for i := 0; i < ms.Len(); i++ {
+					if ms.At(i).Obj().Name() == "Write" {
+						wfn = c.Prog.MethodValue(ms.At(i))
+					}
+				}
+			}
+		}
+		if wfn == nil || len(wfn.Blocks) == 0 || len(wfn.Params) < 2 {
+			return false, "no Write method found on " + ts
+		}
+		recv, data := wfn.Params[0], wfn.Params[1]
+		ok := false
+		why := ts + ".Write does not append its argument to what it already holds"
+		allInstrs(wfn, func(in ssa.Instruction) {
+			call, isCall := in.(*ssa.Call)
+			if !isCall {
+				return
+			}
+			if b, isB := call.Call.Value.(*ssa.Builtin); isB && b.Name() == "append" && len(call.Call.Args) == 2 {
+				// append(<load of recv.F>, data...) stored back into recv.F
+				ld, isLoad := call.Call.Args[0].(*ssa.UnOp)
+				if !isLoad || ld.Op != token.MUL {
+					why = ts + ".Write appends to a re-sliced or fresh buffer (" + path(call.Call.Args[0]) + "): what earlier Write calls delivered is dropped"
+					return
+				}
+				fa, isFA := ld.X.(*ssa.FieldAddr)
+				if !isFA || fa.X != ssa.Value(recv) || !dependsOn(call.Call.Args[1], func(v ssa.Value) bool { return v == ssa.Value(data) }) {
+					return
+				}
+				for _, ref := range *call.Referrers() {
+					if st, isSt := ref.(*ssa.Store); isSt {
+						if fa2, isFA2 := st.Addr.(*ssa.FieldAddr); isFA2 && fa2.X == ssa.Value(recv) && fa2.Field == fa.Field {
+							ok = true
+						}
+					}
+				}
+				return
+			}
+			// forwarding: s.inner.Write(p)
+			if (call.Call.IsInvoke() && call.Call.Method.Name() == "Write") || (call.Call.StaticCallee() != nil && call.Call.StaticCallee().Name() == "Write") {
+				var inner ssa.Value
+				if call.Call.IsInvoke() {
+					inner = call.Call.Value
+				} else if len(call.Call.Args) > 0 {
+					inner = call.Call.Args[0]
+				}
+				if inner != nil {
+					if acc, _ := accumulating(inner.Type(), depth+1); acc {
+						ok = true
+					}
+				}
+			}
+		})
+		if ok {
+			return true, ts + " (Write appends)"
+		}
+		return false, why
+	}
+	n := 0
+	for _, fn := range funcsOfPkg(c, c.SSA[hp.Types]) {
+		fn := fn
+		allInstrs(fn, func(in ssa.Instruction) {
+			call, ok := in.(*ssa.Call)
+			if !ok || !call.Call.IsInvoke() || call.Call.Method.Name() != "WriteTo" || len(call.Call.Args) != 1 {
+				return
+			}
+			w := call.Call.Args[0]
+			mi, isMI := w.(*ssa.MakeInterface)
+			if !isMI {
+				return // a writer passed through from the caller: decided where it is created
+			}
+			n++
+			acc, what := accumulating(mi.X.Type(), 0)
+			r.Analysed(c.FuncName(fn))
+			r.Check(rule, fmt.Sprintf("%s|WriteTo-sink #%d", c.FuncName(fn), n), c.Pos(call.Pos()), acc, "the serialisation is collected in "+what,
+				what+": a value whose WriteTo calls Write more than once (a participant list, a config, a polynomial) is hashed as its LAST piece only, so different values get the same transcript bytes")
+		})
+	}
+	r.Require(rule, 1)
 }
